@@ -587,6 +587,15 @@ class FastaSim(Base):
     def op_protocol(self, op):
         f, m = self.file, self.model
         what = op["what"]
+        if what == "items" and m:
+            # documented: the converter without a header returns the first sequence of the file
+            from biotite.sequence.io import fasta
+
+            first_key = next(iter(f))
+            st0, s0 = call(fasta.get_sequence, f)
+            if st0 == "ok" and str(s0).replace("U", "T") != f[first_key].upper().replace("U", "T").replace("X", "N").replace("O", "K") \
+                    and str(s0) != f[first_key]:
+                self.fail("typed:get_sequence-default-not-first-entry", got=str(s0)[:40], expected=f[first_key][:40])
         if what == "len":
             st, v = call(len, f)
             exp = len(m)
